@@ -37,7 +37,10 @@ def documents(draw):
     nchild = draw(st.sampled_from([0, 1, 1, 2, 3]))
     hosts = [s for s in ch.states if s.kind in ('state', 'parallel')]
     oc = gen.GenOpts(max_states=4, history=False, parallel=True, faults=False, late_binding=False)
+    # ids as charts really carry them: plain names, dotted / dashed names, UUID-shaped ids (tools generate those), long ids
+    id_shapes = ["inv%d", "inv%d", "my.worker-%d", "3f2504e0-4f89-41d3-9a0c-0305e82c330%d", "W%d_" + "x" * 40, "%d0000000-0000-0000-0000-000000000000"]
     for i in range(nchild):
+        id_shape = draw(st.sampled_from(id_shapes))
         host = draw(st.sampled_from(hosts))
         child = draw(gen.charts(oc, dm))
         child.name = "child%d" % i
@@ -45,8 +48,8 @@ def documents(draw):
             # a grandchild machine
             gc = draw(gen.charts(gen.GenOpts(max_states=2, history=False, parallel=False, content=False, late_binding=False), dm))
             gc.name = "grand%d" % i
-            child.states[1].invokes = getattr(child.states[1], 'invokes', []) + [("g%d" % i, gc)]
-        host.invokes = getattr(host, 'invokes', []) + [("inv%d" % i, child)]
+            child.states[1].invokes = getattr(child.states[1], 'invokes', []) + [(draw(st.sampled_from(["g%d", "7c9e6679-7425-40de-944b-e07fc1f9ae7%d"])) % i, gc)]
+        host.invokes = getattr(host, 'invokes', []) + [(id_shape % i, child)]
     return ch
 
 
